@@ -55,6 +55,16 @@ type world struct {
 	// side chain's last momentum, when that differs from the side chain's own (correct) election
 	ownElected map[int]*wallet.KeyPair
 	small      bool
+	// per variant (an account with confirmed blocks / an account whose first block is among the two): two blocks of one
+	// account that are valid on the local tip (b1, b2 on top of b1) and a momentum on the local tip, correctly sealed by
+	// the pillar elected for its slot, that confirms b2 but not b1
+	gapped []gappedCase
+}
+
+type gappedCase struct {
+	name   string
+	blocks []*nom.AccountBlock
+	m      *nom.DetailedMomentum
 }
 
 func keyOf(addr types.Address) *wallet.KeyPair {
@@ -76,6 +86,8 @@ func buildWorld(c *xs.Ctx, length int, depths []int, small bool) *world {
 	defer p.Destroy()
 	// local chain of `length` momentums above genesis, with some content at the start and near the tip
 	ops.Apply(p, ops.Op{K: "T", A: 0, B: 1, V: 500})
+	ops.Apply(p, ops.Op{K: "Call", S: "fuse", A: 0, B: 13, V: 50}) // plasma for an account that has no block yet
+	ops.Apply(p, ops.Op{K: "T", A: 0, B: 13, V: 77})               // and something for it to receive
 	ops.Apply(p, M)
 	for p.Height() < uint64(length) {
 		ops.Apply(p, M)
@@ -146,6 +158,41 @@ func buildWorld(c *xs.Ctx, length int, depths []int, small bool) *world {
 			}
 		}
 		q.Destroy()
+	}
+	// momentums on the local tip that skip a pooled predecessor (built on a twin that holds the blocks)
+	for _, v := range []struct {
+		name string
+		ops  []ops.Op
+		who  int
+	}{
+		{"account-with-history", []ops.Op{{K: "T", A: 9, B: 8, V: 3}, {K: "T", A: 9, B: 8, V: 4}}, 9},
+		{"first-block-of-a-new-account", []ops.Op{{K: "R", A: 13}, {K: "T", A: 13, B: 2, V: 5}}, 13},
+	} {
+		tw := vnode.New(vnode.Options{Dir: c.TempDir()})
+		if _, err, pan := tw.InsertChain(vnode.CloneBatch(w.local)); err != nil || pan != nil {
+			panic(fmt.Sprintf("gapped twin sync: %v %v", err, pan))
+		}
+		var mine []*nom.AccountBlock
+		for _, o := range v.ops {
+			if out := ops.Apply(tw, o); out != "ok" {
+				panic(fmt.Sprintf("harness: gapped case %s: op %v: %s", v.name, o, out))
+			}
+		}
+		for _, b := range tw.PoolBlocks() {
+			if b.Address == ops.Users[v.who].Address {
+				mine = append(mine, vnode.CloneBlock(b))
+			}
+		}
+		if len(mine) != 2 || mine[1].Height != mine[0].Height+1 {
+			panic(fmt.Sprintf("harness: gapped case %s: expected two pooled blocks, got %d", v.name, len(mine)))
+		}
+		gm, err := tw.ForgeMomentum(0, mine[1:])
+		if err != nil {
+			panic(fmt.Sprintf("harness: gapped case %s: %v", v.name, err))
+		}
+		w.gapped = append(w.gapped, gappedCase{v.name, mine, gm})
+		w.unverifiable[gm] = true
+		tw.Destroy()
 	}
 	// extension on top of local
 	ops.Apply(p, ops.Op{K: "T", A: 1, B: 2, V: 7})
@@ -536,6 +583,23 @@ func shapesFor(w *world) []*shape {
 				}
 			}
 			add(s)
+		}
+	}
+	// a sealed momentum on the local tip that confirms the second of two pooled blocks of an account and not the first
+	for _, gc := range w.gapped {
+		gc := gc
+		for _, known := range []int{0, 1} {
+			known := known
+			add(&shape{Name: fmt.Sprintf("extension-skipping-a-pooled-predecessor-%s-known-%d", gc.name, known),
+				pre: func(n *vnode.Node, w *world) {
+					for _, b := range gc.blocks {
+						if e, pn := n.AddAccountBlocks([]*nom.AccountBlock{vnode.CloneBlock(b)}); e != nil || pn != nil {
+							panic(fmt.Sprintf("harness: the block must be valid on the local chain: %v %v", e, pn))
+						}
+					}
+				},
+				batch:       func(w *world) []*nom.DetailedMomentum { return cat(w.local[L-known:], []*nom.DetailedMomentum{gc.m}) },
+				expectChain: localOf, expectErr: true, expectIdx: known})
 		}
 	}
 	// gap
